@@ -121,7 +121,9 @@ def baseline(opname):
         vm = e3.S.vm
         env.restore(pre_snapshot(op['pre']))
     e3.S.reset()
-    perform(op, w / 'b', e3.CountingProgress)
+    wb = w / 'b'
+    wb.mkdir()
+    perform(op, wb, e3.CountingProgress)
     counts = {'cb': e3.S.cb, 'st': e3.S.st, 'au': e3.S.au, 'vm': vm,
               'cb_log': list(e3.S.cb_log)}
     env.close_pool()
